@@ -123,6 +123,37 @@ theorem InvX_dataCore (q : Quirks) (hx : q.execAtomic = true) (hrit : q.refuseBl
   | multi => exact hmono hX
   | exec => exact hmono hX
 
+/-- With nothing queued the drain at the end of a command does nothing. -/
+theorem drain_quiet (q : Quirks) (s : State) (h : s.wakeQ = []) : drain q s = s := by
+  unfold drain
+  split
+  · exact iter_wakeOne_nil q _ s h
+  · rfl
+
+/-- A command executed by an atomic EXEC requests no wake-up. -/
+theorem dataCore_wakeQ_atomic (q : Quirks) (hx : q.execAtomic = true) (now : Nat) (c : Conn) (s : State) (cmd : Cmd) :
+    (dataCore q now c 0 s cmd).wakeQ = s.wakeQ := by
+  cases cmd with
+  | push op k vs =>
+    simp only [dataCore, hx, true_and, if_true]
+    split <;> simp
+  | pop op k => simp only [dataCore]; split <;> simp
+  | bpop op keys t =>
+    simp only [dataCore]
+    split
+    · simp
+    · split
+      · simp
+      · split <;> simp
+  | multi => rfl
+  | exec => rfl
+
+/-- …so, on an empty wake queue, it is the handler alone. -/
+theorem dataCmd_atomic_quiet (q : Quirks) (hx : q.execAtomic = true) (now : Nat) (c : Conn) (s : State) (cmd : Cmd)
+    (h : s.wakeQ = []) : dataCmd q now c 0 s cmd = dataCore q now c 0 s cmd := by
+  unfold dataCmd
+  exact drain_quiet q _ (by rw [dataCore_wakeQ_atomic q hx]; exact h)
+
 theorem pushKeys_cons (cmd : Cmd) (r : List Cmd) : pushKeys (cmd :: r) = pushKeys [cmd] ++ pushKeys r := by
   cases cmd <;> simp [pushKeys]
 
@@ -136,7 +167,7 @@ theorem InvX_foldl (q : Quirks) (hx : q.execAtomic = true) (hrit : q.refuseBlock
   | cons cmd r ih =>
     intro dirty s hX hcp
     simp only [List.foldl_cons]
-    have hd : dataCmd q now c 0 s cmd = dataCore q now c 0 s cmd := by simp [dataCmd, hx]
+    have hd : dataCmd q now c 0 s cmd = dataCore q now c 0 s cmd := dataCmd_atomic_quiet q hx now c s cmd hX.quiet
     rw [hd]
     have h1 := InvX_dataCore q hx hrit now c s cmd hX hcp
     have hcp' : ((dataCore q now c 0 s cmd).conns c).peerClosed = false := by
@@ -221,6 +252,21 @@ theorem cnt_wakeOne_le (q : Quirks) (s : State) (k' : Key) :
           · unfold cntR; simp only [setBlocked_registry, emit_registry]; exact Nat.le_refl _
       · exact ⟨hL, Nat.le_refl _⟩
 
+theorem notify_wakeQ_pos (k : Key) (s : State) (hR : 0 < cntR s k) : 0 < (notify k s).wakeQ.length := by
+  unfold notify
+  split
+  · next hp =>
+    have := cntR_zero_of_popFirst_none hp
+    omega
+  · simp
+
+/-- Carrying out the one queued request empties the queue: further `process_wakeups` calls do nothing. -/
+theorem iter_wakeOne_of_quiet (q : Quirks) (n : Nat) (s : State) (h : (wakeOne q s).wakeQ = []) (hn : 0 < n) :
+    iter (wakeOne q) n s = wakeOne q s := by
+  cases n with
+  | zero => omega
+  | succ n => simp only [iter]; exact iter_wakeOne_nil q n _ h
+
 /-- One round of `serve_key`. -/
 theorem serveRound (q : Quirks) (huas : q.unregisterAllOnServe = true) (k : Key) {sl} (s : State)
     (hI : InvG sl noStale s) (hq : s.wakeQ = []) (hcalm : Calm s) (hR : 0 < cntR s k) (hL : 0 < cntL s k) :
@@ -272,6 +318,13 @@ theorem serveKey_spec (q : Quirks) (huas : q.unregisterAllOnServe = true) (k : K
       have hL : 0 < cntL s k := (any_keyIs_iff_pos k s.store).mp hc.2
       obtain ⟨sl, hI⟩ := hI
       obtain ⟨g1, g2, gc, g3, g4⟩ := serveRound q huas k s hI hq hcalm hR hL
+      have hall : (if q.serveDrains = true then
+            iter (wakeOne q) ((notify k s).wakeQ.length + (notify k s).registry.length) (notify k s)
+          else wakeOne q (notify k s)) = wakeOne q (notify k s) := by
+        split
+        · exact iter_wakeOne_of_quiet q _ _ g2 (Nat.lt_of_lt_of_le (notify_wakeQ_pos k s hR) (Nat.le_add_right _ _))
+        · rfl
+      rw [hall]
       obtain ⟨f1, f2, fc, f3, f4⟩ := ih _ ⟨_, g1⟩ g2 gc (by omega)
       refine ⟨f1, f2, fc, ?_, f4⟩
       intro k'
@@ -327,6 +380,10 @@ structure Sim (s t : State) : Prop where
   out : s.out = t.out
   conns : s.conns = t.conns
   lost : s.lost = t.lost
+  /-- no wake-up request is waiting on either side (a left-over request would be carried out by the drain that
+      follows each queued command) -/
+  quietL : s.wakeQ = []
+  quietR : t.wakeQ = []
 
 theorem Sim_emit {s t : State} (h : Sim s t) (c : Conn) (r : Reply) : Sim (emit s c r) (emit t c r) := by
   have hc : (s.conns c).peerClosed = (t.conns c).peerClosed := by rw [h.conns]
@@ -334,13 +391,13 @@ theorem Sim_emit {s t : State} (h : Sim s t) (c : Conn) (r : Reply) : Sim (emit 
   rw [hc]
   split
   · split
-    · exact ⟨h.store, h.out, h.conns, by show s.lost ++ _ = t.lost ++ _; rw [h.lost]⟩
+    · exact ⟨h.store, h.out, h.conns, by show s.lost ++ _ = t.lost ++ _; rw [h.lost], h.quietL, h.quietR⟩
     · exact h
-  · exact ⟨h.store, by show s.out ++ _ = t.out ++ _; rw [h.out], h.conns, h.lost⟩
+  · exact ⟨h.store, by show s.out ++ _ = t.out ++ _; rw [h.out], h.conns, h.lost, h.quietL, h.quietR⟩
 
 theorem Sim_store {s t : State} (h : Sim s t) (st' : List (Key × Elem)) (pu pu' : List (Key × Elem)) :
     Sim { s with store := st', pushed := pu } { t with store := st', pushed := pu' } :=
-  ⟨rfl, h.out, h.conns, h.lost⟩
+  ⟨rfl, h.out, h.conns, h.lost, h.quietL, h.quietR⟩
 
 theorem Sim_dataCore (q : Quirks) (hx : q.execAtomic = true) (now : Nat) (c : Conn) {s t : State} (h : Sim s t) (cmd : Cmd) :
     Sim (dataCore q now c 0 s cmd) (dataCore q now c 0 t cmd) := by
@@ -367,7 +424,7 @@ theorem Sim_dataCore (q : Quirks) (hx : q.execAtomic = true) (now : Nat) (c : Co
       · split
         · exact Sim_emit h c _
         · simp only [setBlocked, if_true]
-          exact ⟨rfl, h.out, h.conns, h.lost⟩
+          exact ⟨rfl, h.out, h.conns, h.lost, h.quietL, h.quietR⟩
   | multi => exact h
   | exec => exact h
 
@@ -378,8 +435,7 @@ theorem Sim_foldl (q : Quirks) (hx : q.execAtomic = true) (now : Nat) (c : Conn)
   | cons cmd r ih =>
     intro s t h
     simp only [List.foldl_cons]
-    have hd : ∀ u, dataCmd q now c 0 u cmd = dataCore q now c 0 u cmd := by intro u; simp [dataCmd, hx]
-    rw [hd, hd]
+    rw [dataCmd_atomic_quiet q hx now c s cmd h.quietL, dataCmd_atomic_quiet q hx now c t cmd h.quietR]
     exact ih (Sim_dataCore q hx now c h cmd)
 
 end Ferrous.Blk
